@@ -113,7 +113,14 @@ def classes():
     class OtherArgs(ArgsNamespace, render_cls=Other):
         x: int = 0
 
-    _CLASSES.update(Probe=Probe, ProbeArgs=ProbeArgs, Other=Other, OtherArgs=OtherArgs)
+    class ChildProbe(Probe):
+        """A child render class of Probe with render arguments of its own."""
+
+    class ChildArgs(ArgsNamespace, render_cls=ChildProbe):
+        y: int = 0
+
+    _CLASSES.update(Probe=Probe, ProbeArgs=ProbeArgs, Other=Other, OtherArgs=OtherArgs,
+                    ChildProbe=ChildProbe, ChildArgs=ChildArgs)
     return _CLASSES
 
 
@@ -153,7 +160,28 @@ def make_padding(p):
     fill = p.get("fill", " ")
     if p["kind"] == "exact":
         return ExactPadding(p["l"], p["t"], p["r"], p["b"], fill)
+    if p["kind"] == "sub":
+        return sub_aligned_class()(p["w"], p["h"], HAlign(p["ha"]), VAlign(p["va"]), fill)
     return AlignedPadding(p["w"], p["h"], HAlign(p["ha"]), VAlign(p["va"]), fill)
+
+
+_SUB = []
+
+
+def sub_aligned_class():
+    """A user subclass of AlignedPadding (extension API): all padding on the left / at the top."""
+    if not _SUB:
+        from term_image.padding import AlignedPadding
+
+        class TopLeftPadding(AlignedPadding):
+            __slots__ = ()
+
+            def _get_exact_dimensions_(self, render_size):
+                left, top, right, bottom = super()._get_exact_dimensions_(render_size)
+                return left + right, top + bottom, 0, 0
+
+        _SUB.append(TopLeftPadding)
+    return _SUB[0]
 
 
 TERM0 = (8, 6)  # TW, TH of the RenderIter.tla configurations
@@ -273,6 +301,8 @@ class RealIter:
                 v = op["v"]
                 if v == "incompatible":
                     ra = RenderArgs(self.C["Other"])
+                elif v == "child":
+                    ra = RenderArgs(self.C["ChildProbe"], self.C["ChildArgs"](3))
                 else:
                     ra = RenderArgs(self.C["Probe"], self.C["ProbeArgs"](*ARGS[v]))
                 it.set_render_args(ra)
